@@ -166,7 +166,9 @@ class Checker:
         for o in viol:
             m = None
             for k in open_k:
-                if k.get("rule") == o.rule and k.get("function") == o.function and k.get("statement") == o.statement:
+                same_site = k.get("rule") == o.rule and k.get("function") == o.function
+                dc = k.get("detail_contains") or []
+                if same_site and (k.get("statement") == o.statement or (dc and all(x in (o.detail or "") for x in dc))):
                     m = k
                     break
             (known if m else fresh).append((o, m))
